@@ -208,7 +208,7 @@ where
     let reached = adjacency.indexed_values(f).unwrap();
     // target is +1 because all edges could point to the same operation, so its indegree will be
     // adjacency.len().
-    let target = adjacency.len() + K::I::one();
+    let target = adjacency.values.len() + K::I::one();
     let table = (reached.table.as_ref() as &K::Type<K::I>).bincount(adjacency.len());
     FiniteFunction::new(table, target).unwrap()
 }
@@ -239,7 +239,7 @@ where
     // Indices may appear more than once.
     let g = a.indexed_values(f).unwrap();
     let (i, c) = g.table.sparse_bincount();
-    let target = a.len() + K::I::one();
+    let target = a.values.len() + K::I::one();
 
     (
         FiniteFunction::new(i, a.len()).unwrap(),
